@@ -1,19 +1,50 @@
 """Driver: explore all paths of a function under a contract mode, emit the
 obligations as SMT-LIB text, discharge them (z3, then cvc5 on unknown)."""
-import os, subprocess, tempfile, time, traceback
+import ast, json, os, subprocess, tempfile, time, traceback
 import z3
-from . import extract, sym
+from . import alpha, extract, sym
 
 Z3_RLIMIT = int(os.environ.get("PYVC_RLIMIT", "60000000"))
 Z3_TIMEOUT_MS = int(os.environ.get("PYVC_TIMEOUT_MS", "120000"))
 CVC5_TIMEOUT_S = int(os.environ.get("PYVC_CVC5_TIMEOUT_S", "60"))
 
 
-def function_ast(contract, repo=None):
+REFERENCE_FILE = os.path.join(os.path.dirname(os.path.dirname(os.path.abspath(__file__))), "contracts", "REFERENCE_SRC.json")
+_REFERENCE = None
+
+
+def reference_sources():
+    global _REFERENCE
+    if _REFERENCE is None:
+        try:
+            _REFERENCE = json.load(open(REFERENCE_FILE))
+        except Exception:
+            _REFERENCE = {}
+    return _REFERENCE
+
+
+def function_ast(contract, repo=None, alpha_rename=True):
     if contract.source is not None:
         text = contract.source(repo)
         return extract.from_source(text, None)
-    return extract.find(contract.qual, repo)
+    import hashlib
+    outer, inner, src, relpath = extract.find_outer(contract.qual, repo)
+    cur_text = ast.unparse(outer)
+    use, mapping = outer, {}
+    ref = reference_sources().get(contract.name) if alpha_rename else None
+    if ref and ref.get("outer") and ref["outer"] != cur_text:
+        # locals renamed back to the names the sidecar was written for (capture-free alpha-conversion, see pyvc/alpha.py)
+        use, mapping = alpha.normalise(ref["outer"], outer)
+    try:
+        node = extract.find_in(use, inner)
+    except extract.ExtractError as e:
+        raise extract.ExtractError("%s: %s" % (contract.qual, e))
+    seg = ast.get_source_segment(src, node) or ""
+    info = {"qualified": contract.qual, "file": relpath, "lines": [node.lineno, getattr(node, "end_lineno", node.lineno)],
+            "sha1": hashlib.sha1(seg.encode()).hexdigest(), "outer_unparsed": cur_text}
+    if mapping:
+        info["alpha_renamed"] = mapping
+    return node, seg, info
 
 
 def generate(contract, mode_name, repo=None):
@@ -122,6 +153,8 @@ PORTFOLIO = [
     ("z3", 60000, {}),
     ("cvc5", CVC5_TIMEOUT_S, None),
 ]
+if os.environ.get("PYVC_TEST_TINY_BUDGET"):     # self-test of the retry path: the first pass gets (almost) no time
+    PORTFOLIO = [("z3", 1, {})]
 if os.environ.get("VERIF_TIER") == "thorough":
     PORTFOLIO = PORTFOLIO + [("z3-seed99", 180000, {"smt.random_seed": 99})]
 
@@ -197,6 +230,19 @@ def safe_generate(args):
         return {"contract": contract_name, "mode": mode_name, "error": "extract: %s" % e, "kind": "extract"}
     except Exception:
         return {"contract": contract_name, "mode": mode_name, "error": traceback.format_exc(), "kind": "crash"}
+
+
+LONG_PORTFOLIO = [("z3", 120000, {}), ("cvc5", 120, None), ("z3-seed7-nombqi", 240000, {"smt.random_seed": 7, "smt.mbqi": False}), ("z3-seed99", 300000, {"smt.random_seed": 99})]
+
+
+def safe_discharge_long(ob):
+    global PORTFOLIO
+    saved = PORTFOLIO
+    PORTFOLIO = LONG_PORTFOLIO
+    try:
+        return safe_discharge(ob)
+    finally:
+        PORTFOLIO = saved
 
 
 def safe_discharge(ob):
